@@ -43,7 +43,8 @@ def generate(seed, tier):
         for _ in range(rng.randint(6, 14)):
             x = rng.random()
             if x < 0.08:
-                ops.append({'op': 'built_in_memory', 'n': rng.randrange(1000), 'edit': rng.choice(['output_value', 'append_output', 'signature', 'drop_input'])})
+                ops.append({'op': 'built_in_memory', 'n': rng.randrange(1000), 'edit': rng.choice(['output_value', 'append_output', 'signature', 'drop_input', 'wallet_signs_decoded',
+                                                                                            'wallet_signs_decoded'])})
             elif x < 0.45:
                 ops.append({'op': 'rewrite', 'type': rng.choice(['block', 'block', 'header', 'summary', 'tx', 'tx', 'input',
                                                                  'output', 'outref', 'evidence', 'sig', 'pubkey', 'coinbasedata',
@@ -143,6 +144,34 @@ def run_codec(script, res, trace):
             tx = Transaction(list(t0.inputs), list(t0.outputs))
             first = tx.hash()
             e = op.get('edit')
+            if e == 'wallet_signs_decoded':
+                # an unsigned transaction arrives as bytes (placeholders where signatures belong), is decoded, and is
+                # signed through the wallet: the id of the result is the hash of the SIGNED encoding
+                from skepticoin.wallet import Wallet, sign_transaction
+                from seams import entropy
+                cands = [(bb, tt) for bb in blocks for tt in bb.transactions[1:]
+                         if bb.header.summary.previous_block_hash in sim.chain.blocks]
+                if not cands:
+                    continue
+                bb, tt = cands[op.get('n', 0) % len(cands)]
+                parent = sim.chain.blocks[bb.header.summary.previous_block_hash]
+                unsigned = Transaction.deserialize(tt.signable_equivalent().serialize())
+                unsigned.hash()
+                wl = Wallet({W.key(i).pub: W.key(i).priv for i in range(12)}, [], {})
+                utxo = sim.cs.unspent_transaction_outs_by_hash[parent.id]
+                entropy.install(op.get('n', 0))
+                try:
+                    signed = sign_transaction(wl, utxo, unsigned)
+                finally:
+                    entropy.uninstall()
+                res.bump('wallet_signed_decoded')
+                res.distinct.add('memory:wallet_signs_decoded')
+                if signed.hash() != sha256d(signed.serialize()):
+                    res.violate(PROP, 'C07/id-is-not-hash-of-canonical-encoding',
+                                'a transaction decoded unsigned and then signed by the wallet reports id %s; its signed encoding hashes to %s' % (
+                                    signed.hash().hex()[:16], sha256d(signed.serialize()).hex()[:16]))
+                    break
+                continue
             if e == 'output_value':
                 tx.outputs[0] = Output(tx.outputs[0].value + 1, tx.outputs[0].public_key)
             elif e == 'append_output':
